@@ -31,7 +31,7 @@ func (prop) Assumptions() []string {
 }
 func (prop) MinNontrivial(tier string) int {
 	if tier == "thorough" {
-		return 10000
+		return 50000
 	}
 	return 800
 }
@@ -48,7 +48,7 @@ func (prop) Cases(tier string, seed uint64) []core.Case {
 	}
 	streams := 10
 	if tier == "thorough" {
-		streams = 150
+		streams = 1200
 	}
 	// full grid of time-window configurations
 	for _, p := range periods {
@@ -72,7 +72,7 @@ func (prop) Cases(tier string, seed uint64) []core.Case {
 	}
 	cstreams := 4
 	if tier == "thorough" {
-		cstreams = 40
+		cstreams = 300
 	}
 	for pc := 1; pc <= 5; pc++ {
 		for ec := 1; ec <= 5; ec++ {
